@@ -79,6 +79,21 @@ func render(parts []interface{}) string {
 
 type panicked string
 
+// optionSensitive are values whose JSON encoding depends on the encoder's
+// options (HTML escaping, explicit radix point, invalid floats). Maps have one
+// entry only (map iteration order has no seam, DESIGN 2.8).
+var optionSensitive = []interface{}{
+	map[string]interface{}{"a<b": "x>y"},
+	map[string]string{"t&c": "</script>"},
+	map[string]float64{"<": 2},
+	map[string]interface{}{"k>": 1.0},
+	[]interface{}{1e21, map[string]interface{}{"&n": 1e21}},
+	[]interface{}{"<&>", 3.0, float32(0.5), "\u2028"},
+	map[string][]float64{"&": {1, 2.5, math.NaN()}},
+	[]float64{100000000, math.Inf(1)},
+	model.Simple{B: "<b>", D: 4},
+}
+
 // newEnc builds an encoder; JSON encoders get per-task option settings.
 func newEnc(f model.Format, w io.Writer, opts int) structform.Visitor {
 	if f == model.JSON {
@@ -306,6 +321,13 @@ func genOp(c *simkit.Choices, sh *shared, taskIdx int) *op {
 		case 1, 2: // a shared value with inline interface / Folder / map fields
 			j := c.N(len(sh.foldVals))
 			val, tname = sh.foldVals[j], sh.foldTypes[j].Name
+		}
+		if c.N(4) == 0 {
+			// a fixed pool of option-sensitive inputs, the same in every task and
+			// run: whatever is remembered per input text (not per encoder
+			// configuration) is hit by encoders that differ in their options
+			j := c.N(len(optionSensitive))
+			val, tname, f = optionSensitive[j], fmt.Sprintf("option-sensitive#%d", j), model.JSON
 		}
 		eo := c.N(8)
 		return &op{desc: OpDesc{Kind: "fold-encode", Format: string(f), Type: tname, Variant: eo},
